@@ -468,46 +468,22 @@ def run():
     if body is None:
         broken.append("lexer.rs: Token::lbp not found")
     else:
-        body_na = re.sub(r"#\[[^\]]*\]", "", body)
-        chain = list(re.finditer(r"if\s+match\s+\*?self\s*\{\s*([^=]+?)\s*=>\s*true\s*,\s*_\s*=>\s*false\s*,?\s*\}\s*\{\s*([^{}]+?)\s*\}", body_na)) or \
-            list(re.finditer(r"if\s+matches!\s*\(\s*\*?self\s*,\s*([^)]+?)\)\s*\{\s*([^{}]+?)\s*\}", body_na))
-        if chain:
-            # an if / else-if chain of `matches!` tests: earlier tests win
-            for m in chain:
-                v = const_eval(m.group(2), env)
-                if v is None:
-                    broken.append("lexer.rs: binding power %r not understood" % m.group(2)[:40])
-                    continue
-                for n in pats(m.group(1)):
-                    if n in TOKENS:
-                        lbp.setdefault(n, v)
-                    else:
-                        broken.append("lexer.rs: unknown token %r in lbp" % n)
-            me = re.search(r"else\s*\{\s*([^{}]+?)\s*\}\s*$", body_na.strip())
-            default = const_eval(me.group(1), env) if me else None
-            if default is None:
-                broken.append("lexer.rs: lbp has no final else")
-        else:
-            mb = re.search(r"match\s+\*?self\s*\{", body_na)
-            arms = body_na[mb.end():] if mb else body_na
-            for arm in re.finditer(r"((?:&?\s*[A-Za-z_:]+(?:\s*\([^)]*\)|\s*\{[^}]*\})?\s*\|\s*)*&?\s*[A-Za-z_:]+(?:\s*\([^)]*\)|\s*\{[^}]*\})?)\s*=>\s*([^,{}]+?)\s*(?:,|\}\s*$)", arms):
-                v = const_eval(arm.group(2), env)
-                if v is None:
-                    broken.append("lexer.rs: binding power %r not understood" % arm.group(2)[:40])
-                    continue
-                for n in pats(arm.group(1)):
-                    if n == "_":
-                        default = v
-                    elif n in TOKENS:
-                        lbp.setdefault(n, v)
-                    else:
-                        broken.append("lexer.rs: unknown token %r in lbp" % n)
-            if default is None and len(lbp) < len(TOKENS):
-                broken.append("lexer.rs: lbp has no default arm")
-        if not lbp:
-            broken.append("lexer.rs: no binding powers read")
+        # the function is *evaluated* for every token kind (early returns, if-let chains, helper predicates, nested matches,
+        # local constants); a constant table of (variant, value) pairs looked up by discriminant is read as a fallback
+        import lbpeval
+        try:
+            lbp = lbpeval.table(whole, "lbp", TOKENS, const_eval, env)
+        except lbpeval.NotUnderstood as e1:
+            try:
+                lbp = lbpeval.pair_table(whole, body, TOKENS, const_eval, env)
+            except lbpeval.NotUnderstood as e2:
+                lbp = {}
+                broken.append("lexer.rs: Token::lbp not understood (%s; %s)" % (str(e1)[:60], str(e2)[:40]))
+        except Exception as e:      # a reader bug must not become a wrong table
+            lbp = {}
+            broken.append("lexer.rs: Token::lbp not understood (%s)" % type(e).__name__)
         for t in TOKENS:
-            lbp.setdefault(t, default or 0)
+            lbp.setdefault(t, 0)
     # threshold of the stop test `<token>.lbp() < C` (or `<=`, or mirrored `C > <token>.lbp()`), wherever it is written;
     # the loop test `rbp < <token>.lbp()` has the binding power on the other side and is not a candidate
     stop = None
@@ -517,8 +493,12 @@ def run():
     for m in re.finditer(r"([\w:]+(?:\s*\(\s*\))?|\d+)\s*(>=|>)\s*[\w.]+(?:\([^()]*\))?\.lbp\(\)", whole):
         cands.append(({">": "<", ">=": "<="}[m.group(2)], m.group(1)))
     vals = set()
+
+    def with_lbp(expr):
+        return re.sub(r"\b(?:\w+\s*::\s*)*(\w+)\s*\.\s*lbp\s*\(\s*\)", lambda mm: str(lbp[mm.group(1)]) if mm.group(1) in lbp else mm.group(0), expr)
+    env = {k: with_lbp(v) for k, v in env.items()}
     for op, c in cands:
-        v = const_eval(c, env)
+        v = const_eval(with_lbp(c), env)
         if v is not None:
             vals.add(v if op == "<" else v + 1)
     if len(vals) == 1:
@@ -608,6 +588,28 @@ def run():
         elif n_calls != len(regs):
             broken.append("runtime.rs: %d string literals but %d registrations understood" % (n_calls, len(regs)))
     sigs = read_signatures(sig_txt, list(dict.fromkeys(st for _, st in regs)), broken)
+    # ---- the signatures as the implementation itself reports them (arity and type errors name the declared arity and types):
+    # a fallback when the construction in the source is not understood, and a cross-check against silent misreads when it is
+    try:
+        import sigprobe
+        exe, _ = vlib.build_harness()
+        if exe and regs:
+            run1 = lambda lines: vlib.run_exe(exe, lines, timeout=120, shards=1)
+            for nm, st in regs:
+                try:
+                    pr = sigprobe.probe(run1, nm)
+                except Exception:
+                    pr = None
+                if pr is None:
+                    continue
+                if st not in sigs:
+                    sigs[st] = pr
+                    broken[:] = [b for b in broken if not (b.startswith("functions.rs:") and re.search(r"\b%s\b" % re.escape(st), b))]
+                    notes.append("signature of %s inferred from the implementation's own error reports (its construction in the source is not understood)" % st)
+                elif sigs[st] != pr:
+                    broken.append("functions.rs: the signature of %s read from the source (%s) is not the one the implementation enforces (%s)" % (st, sigs[st], pr))
+    except Exception as ex:      # the probe is an aid, never a reason to fail
+        notes.append("signature probe unavailable: %s" % type(ex).__name__)
     out.append("(* registration order of register_builtin_functions: (name, implementing struct, signature of that struct) *)")
     rows = []
     for nm, st in regs:
